@@ -26,6 +26,9 @@ def step (_ : Unit) (ws : List String) : Unit × String :=
   match ws with
   | ["seed"] => ((), "ok")
   | "sess" :: _ => ((), "ok")
+  | "mkuser" :: _ => ((), "ok")
+  | "upduser" :: _ => ((), "ok")
+  | "login" :: _ => ((), "ok")
   | ["endpoints"] => ((), "endpoints **")
   | "call" :: _ => ((), "*")
   | _ => ((), "bad-op")
@@ -33,6 +36,18 @@ def step (_ : Unit) (ws : List String) : Unit × String :=
 structure SpecSt where
   pending : List String := []
   sessions : List (String × Stored) := []
+  /-- the stored group of every user created through the console, as `Privilege.addUser` / `updateUser` predict it -/
+  users : List (String × Stored) := []
+
+def has (ws : List String) (k : String) : Bool := ws.any (·.startsWith (k ++ "="))
+
+/-- the `PrivilegeGroupOptionParam` a `mkuser` / `upduser` line sends: an absent key is an absent field -/
+def paramOf (ws : List String) : Option Param :=
+  if !(has ws "wall" || has ws "w" || has ws "ball" || has ws "b") then none else
+  some { whitelistIsAll := if has ws "wall" then some (kv ws "wall" == "1") else none,
+         whitelist := if has ws "w" then some (csv (kv ws "w")) else none,
+         blacklistIsAll := if has ws "ball" then some (kv ws "ball" == "1") else none,
+         blacklist := if has ws "b" then some (csv (kv ws "b")) else none }
 
 def isWrite (ep : String) : Bool :=
   !(ep.endsWith "list" || ep.endsWith "get" || ep.endsWith "info" || ep.endsWith "history" || ep.endsWith "download")
@@ -54,6 +69,19 @@ def specStep (s : SpecSt) (ws : List String) : SpecSt × String :=
     | "sess" :: name :: rest =>
       let st : Stored := ⟨kv rest "en" == "1", kv rest "wall" == "1", kv rest "ball" == "1", csv (kv rest "w"), csv (kv rest "b")⟩
       ({ s0 with sessions := (name, st) :: s.sessions.filter (·.1 != name) }, "-")
+    | "mkuser" :: name :: rest =>
+      if ans != ["ok"] then (s0, "spec FAIL the console does not create the user") else
+      ({ s0 with users := (name, addUser (paramOf rest)) :: s.users.filter (·.1 != name) }, "spec ok")
+    | "upduser" :: name :: rest =>
+      if ans != ["ok"] then (s0, "spec FAIL the console does not update the user") else
+      (match s.users.find? (·.1 == name) with
+       | some (_, st) => ({ s0 with users := (name, updateUser st (paramOf rest)) :: s.users.filter (·.1 != name) }, "spec ok")
+       | none => (s0, "-"))
+    | "login" :: name :: rest =>
+      if ans != ["ok"] then (s0, "spec FAIL a user created through the console cannot log in") else
+      (match s.users.find? (·.1 == name) with
+       | some (_, st) => ({ s0 with sessions := (kv rest "as", st) :: s.sessions.filter (·.1 != kv rest "as") }, "spec ok")
+       | none => (s0, "-"))
     | "call" :: ep :: rest =>
       match s.sessions.find? (·.1 == kv rest "session") with
       | none => (s0, "-")
